@@ -39,6 +39,9 @@ pub struct Ctx {
     pub held: Option<rusqlite::Connection>,
     /// a versions row whose payload column was set to NULL for the next operation (id text, old blob)
     pub rowfault: Option<(String, Vec<u8>)>,
+    /// further server instances on the same data directory (SQLite): number -> (server, store)
+    pub insts: HashMap<u32, (Server, Arc<LogStore>)>,
+    pub cur_inst: u32,
 }
 
 pub fn urg(u: SnapshotUrgency) -> &'static str {
@@ -67,6 +70,8 @@ impl Ctx {
             keep_dir: std::env::var("TSS_KEEP_DIR").ok().map(std::path::PathBuf::from),
             held: None,
             rowfault: None,
+            insts: HashMap::new(),
+            cur_inst: 0,
         };
         c.open(true);
         c
@@ -99,6 +104,30 @@ impl Ctx {
         }
         let shared = Shared(self.store.as_ref().unwrap().clone());
         self.server = Some(Server::new(self.cfg(), shared));
+    }
+
+    /// make server instance k the current one; instances are separate Server + storage objects on
+    /// the same SQLite directory and keep whatever process-local state they have.  For the model
+    /// (and for the in-memory backend, which has one process-wide store) this is a no-op.
+    pub fn switch_inst(&mut self, k: u32) {
+        if self.backend != Backend::Sqlite || k == self.cur_inst {
+            return;
+        }
+        let cur = (self.server.take().unwrap(), self.store.take().unwrap());
+        self.insts.insert(self.cur_inst, cur);
+        match self.insts.remove(&k) {
+            Some((sv, st)) => {
+                self.server = Some(sv);
+                self.store = Some(st);
+            }
+            None => {
+                let st = SqliteStorage::new(self.data_dir()).expect("open sqlite (second instance)");
+                self.store = Some(Arc::new(LogStore::new(st)));
+                let shared = Shared(self.store.as_ref().unwrap().clone());
+                self.server = Some(Server::new(self.cfg(), shared));
+            }
+        }
+        self.cur_inst = k;
     }
 
     /// the SQLite data directory (a kept directory when TSS_KEEP_DIR is set, else a temp dir)
@@ -698,6 +727,10 @@ impl Ctx {
                 self.setcounter(c, n.parse().unwrap())
             }
             ["reopen"] => self.reopen(),
+            ["inst", k] => {
+                self.switch_inst(k.parse().unwrap());
+                self.emit("reopen".to_string(), "unit".into());
+            }
             ["savestate", path] => self.save_state(path),
             ["loadstate", path] => self.load_state(path),
             ["usedir", path] => {
